@@ -372,7 +372,7 @@ impl<'a> RefSim<'a> {
                     .any(|(dm, did, dvia)| *dm == m && *did == b.id && *dvia == b.via)
                 {
                     return viol(
-                        &["C09"],
+                        &["C09", "C10"],
                         "executed-although-cancelled-before-step",
                         format!(
                             "{}: model {} processed msg {:x} at t={} although its key was cancelled before the step began",
@@ -426,7 +426,7 @@ impl<'a> RefSim<'a> {
                         };
                         if in_time {
                             return viol(
-                                &["C09"],
+                                if d.periodic { &["C09", "C10"] } else { &["C09"] },
                                 "executed-although-cancelled",
                                 format!(
                                     "{}: model {} processed msg {:x} at t={} although its key was cancelled by an earlier handler of the same model (or earlier)",
@@ -436,7 +436,8 @@ impl<'a> RefSim<'a> {
                         }
                     } else if ca.epoch < self.epoch {
                         return viol(
-                            &["C09"],
+                            // a cancelled periodic series that keeps firing also breaks C10 ("until it is cancelled")
+                            if d.periodic { &["C09", "C10"] } else { &["C09"] },
                             "executed-although-cancelled",
                             format!("{}: action {:x} ran although cancelled before its step", what, b.id),
                         );
